@@ -25,8 +25,13 @@ class CompB(Rec):
 
 @desper.event_handler('on_world_load')
 class CompC(Rec):
+    """a container-like component: iterable (and empty) - a loader must not mistake it for a list of components"""
+
     def on_world_load(self, handle, world):
         EVENTS.append((self, 'on_world_load', handle, world))
+
+    def __iter__(self):
+        return iter(())
 
 
 class ProcA(desper.Processor):
